@@ -1545,3 +1545,4 @@ UNITS = [
     ("C16.PITZER_GAMMA.reported_lg_is_tied_to_the_model_value_lg_pitzer", unit_pitzer_gamma_row),
     ("C16.BASIC.LG_GAMMA_OSMOTIC_report_what_the_model_computed_for_that_species", unit_basic_readouts),
 ]
+from props.c16_ext2 import UNITS as _U2; UNITS = UNITS + _U2
